@@ -53,7 +53,7 @@ def _tm_tie_sigma_rel(kind, st, nums_infl, keys):
     return max(1e-9, 1e-12 / t_min)
 
 
-def _tm_tie_mu_allow(kind, st, nums_infl, keys, t, j):
+def _tm_tie_mu_allow(kind, st, nums_infl, keys, t, j, transformed=False):
     """absolute allowance on a posterior mu in Thurstone-Mosteller games with ties: on the branch the code
     takes for small draw margins, V~ is -x -/+ t, which jumps by 2t at x = 0; two presentations of one game
     whose team totals differ by rounding may land on either side.  The jump moves player (t, j) by
@@ -62,10 +62,17 @@ def _tm_tie_mu_allow(kind, st, nums_infl, keys, t, j):
         return 0.0
     ss = _team_ss(nums_infl)
     cm = 4.0 if kind == "TMP" else 1.0
+    th = [math.fsum(mu for mu, _ in tm) for tm in nums_infl]
     tot = 0.0
     for q in range(len(keys)):
         if q != t and keys[q] == keys[t]:
-            tot += 2 * st["kappa"] / (cm * (ss[t] + ss[q] + 2 * st["beta"] ** 2))
+            # the side of the jump is ambiguous only if the two totals agree up to rounding AND a total can depend on
+            # the summation order at all (a team of three or more players; a + b = b + a exactly)
+            # (when the two presentations differ by an arithmetic transformation of the numbers - a rescaling or a shift -
+            # every total is re-rounded, so only teams with identical value lists are safe from the ambiguity)
+            can_differ = (nums_infl[t] != nums_infl[q]) if transformed else max(len(nums_infl[t]), len(nums_infl[q])) >= 3
+            if can_differ and abs(th[t] - th[q]) <= 1e-9 * max(abs(th[t]), abs(th[q]), st["beta"]):
+                tot += 2 * st["kappa"] / (cm * (ss[t] + ss[q] + 2 * st["beta"] ** 2))
     return nums_infl[t][j][1] ** 2 * tot * (1 + 1e-9)
 
 
@@ -1547,7 +1554,7 @@ def mon_C16(rng, budget, tier):
                 for j in range(len(nums[t])):
                     x, y = base[t][j], got[t][j]
                     sc = max(abs(x[0]), abs(y[0]), abs(a_), infl[t][j][1])
-                    allow = _tm_tie_mu_allow(kind, st, infl, order, t, j)
+                    allow = _tm_tie_mu_allow(kind, st, infl, order, t, j, transformed=True)
                     if not (_close_mu(x[0] + a_, y[0], sc) or abs(x[0] + a_ - y[0]) <= allow + 1e-9 * sc) or not _close_rel(x[1], y[1], srel):
                         mon.fail("rate under a shift of all mu", case, "player [%d][%d]: %s shifted by %r, got %s (sigma tolerance %.1e)" % (t, j, x, a_, y, srel))
             ps = [call_predict(op, kind, st, nums_s) for op in ("pwin", "pdraw", "prank")]
